@@ -23,6 +23,7 @@ mod l4;
 mod l5;
 mod l6;
 mod l7;
+mod l8;
 mod oracle;
 mod seeds;
 mod tok;
@@ -43,6 +44,7 @@ enum Layer {
     L3,
     L6,
     L7,
+    L8,
 }
 
 impl Layer {
@@ -57,6 +59,7 @@ impl Layer {
             Layer::L3 => "L3-seed-deviations",
             Layer::L6 => "L6-scaling",
             Layer::L7 => "L7-self-reference-through-type-constructors",
+            Layer::L8 => "L8-constants-in-every-position",
         }
     }
     fn chunk(self) -> u64 {
@@ -69,12 +72,13 @@ impl Layer {
             Layer::L3 => 2000,
             Layer::L6 => 14,
             Layer::L7 => 200,
+            Layer::L8 => 250,
         }
     }
 }
 
-const ORDER: [Layer; 9] =
-    [Layer::L6, Layer::L7, Layer::L1, Layer::L4, Layer::L5Mem, Layer::L5Disk, Layer::L2t, Layer::L2, Layer::L3];
+const ORDER: [Layer; 10] =
+    [Layer::L6, Layer::L7, Layer::L8, Layer::L1, Layer::L4, Layer::L5Mem, Layer::L5Disk, Layer::L2t, Layer::L2, Layer::L3];
 
 struct Plan {
     l3: l3::Table,
@@ -97,6 +101,7 @@ fn plan(cfg: &Cfg) -> Plan {
             Layer::L3 => l3.count(),
             Layer::L6 => l6::count(cfg),
             Layer::L7 => l7::count(cfg),
+            Layer::L8 => l8::count(cfg),
         };
         counts.push((l, n));
         let mut lo = 0;
@@ -122,6 +127,7 @@ fn build(cfg: &Cfg, p: &Plan, layer: Layer, idx: u64) -> (Option<Input>, Value) 
         Layer::L3 => p.l3.case(idx),
         Layer::L6 => some(l6::case(cfg, idx)),
         Layer::L7 => some(l7::case(cfg, idx)),
+        Layer::L8 => some(l8::case(cfg, idx)),
     }
 }
 
@@ -401,6 +407,7 @@ impl Check for C06 {
                 "L5": l5::bounds(cfg),
                 "L6": l6::bounds(cfg),
                 "L7": l7::bounds(cfg),
+                "L8": l8::bounds(cfg),
             }),
             states_are: "distinct inputs (source texts / module trees); distinct inside each unit, enumeration indices are distinct across units".into(),
             transitions_are: "runs of FileTree::compile (+ RotoReport::write twice and the location check on Err)".into(),
